@@ -192,6 +192,76 @@ def round_trip(V, via):
         out.unchanged('x', x)
 
 
+@unit('C06', 'exact-DFT/round-trip-with-an-explicit-n', functions=[FR + 'calc_fa_spectrum', FR + 'fas2values', FR + 'fas2signal'],
+      cases=[dict(via='fas2values'), dict(via='fas2signal')], modes=('bounded',), sizes=dict(N=[6, 14]), thorough_sizes=dict(N=[6, 10, 14, 18]), budget_ms=60000)
+def round_trip_explicit_n(V, via):
+    """spectrum requested with an explicit n that is NOT a power of two (record one sample shorter than n): the inverse helper returns all n
+    samples; for n = 6 the DFT is exact and the reconstruction is checked sample by sample (n = 12 is exact too but its sqrt(3) twiddles exceed the solver budget), otherwise (uninterpreted kernel) only the length"""
+    st = {}
+
+    def setup():
+        CS.install_cache_summaries(V)
+        N = V.size('N', 6)
+        x = V.array('x', N - 1, origin='param')
+        dt = V.real('dt')
+        V.assume(dt > 0)
+        sig = S.make_signal(V, 'Signal', x, dt)
+        st.update(N=N, x=x, dt=dt, sig=sig)
+        return ((sig,), {})
+
+    def op(itp, sig):
+        fas = itp.call(itp.get_function(FR + 'calc_fa_spectrum'), [sig], dict(n=st['N']))[0]
+        if via == 'fas2values':
+            return fas, itp.call(itp.get_function(FR + 'fas2values'), [fas, st['dt']], {})
+        s2 = itp.call(itp.get_function(FR + 'fas2signal'), [fas, st['dt']], {})
+        return fas, s2.attrs['_values']
+    for out in V.run(op, setup):
+        out.replay_info = dict(module='fourier', op='round_trip_n', via=via, N=st['N'])
+        if not out.no_raise():
+            continue
+        N, x, dt = st['N'], st['x'], st['dt']
+        fas, rec = out.result
+        out.prove('half-spectrum-has-n/2-bins', is_arr(fas) and tuple(fas.shape) == (N // 2,))
+        ok = is_arr(rec) and tuple(rec.shape) == (N,)
+        out.prove('reconstruction-has-the-padded-length-n', ok)
+        if not ok or N != 6:
+            continue
+        xp = [x[k] for k in range(N - 1)] + [0]
+        mean = T.sdiv(sum_list(xp), N)
+        nyq = T.sdiv(sum_list([T.smul(xp[k], 1 if k % 2 == 0 else -1) for k in range(N)]), N)
+        for k in range(N):
+            want = T.ssub(T.ssub(xp[k], mean), T.smul(nyq, 1 if k % 2 == 0 else -1))
+            got = T.as_cx(rec[k])
+            out.prove('inverse-helper-reconstructs-padded-record-minus-mean-and-Nyquist[%d]' % k, T.sand(T.seq(got.re, want), T.seq(got.im, 0)), atomize=True)
+        out.unchanged('x', x)
+
+
+@unit('C06', 'inverse-helper/length-and-frame (any half-spectrum length)', functions=[FR + 'fas2values', FR + 'fas2signal'],
+      cases=[dict(via='fas2values'), dict(via='fas2signal')], modes=('unbounded',), budget_ms=20000)
+def inverse_helper_length(V, via):
+    """for a half spectrum of ANY length m >= 1 the inverse helper returns 2m samples (the padded length N = 2m) and leaves its argument alone"""
+    st = {}
+
+    def setup():
+        m = V.size('m', 1)
+        fas = V.array('fas', m, dtype='complex', origin='param')
+        dt = V.real('dt')
+        V.assume(dt > 0)
+        st.update(m=m, fas=fas, dt=dt)
+        return ((fas, dt), {})
+    for out in V.run(FR + via, setup):
+        out.replay_info = dict(module='fourier', op='round_trip_n', via=via, N=14)
+        if not out.no_raise():
+            continue
+        rec = out.result if via == 'fas2values' else out.result.attrs['_values']
+        m = st['m']
+        ok = is_arr(rec) and len(rec.shape) == 1
+        out.prove('result-is-a-1-d-array', ok)
+        if ok:
+            out.prove('returns-all-2m-samples-of-the-padded-record', T.seq(rec.shape[0], T.smul(2, m)))
+        out.unchanged('fas', st['fas'])
+
+
 def sum_list(xs):
     t = 0
     for v in xs:
